@@ -279,7 +279,7 @@ class Source:
             for c in cands:
                 for ch in c.children:
                     if p.startswith('<') and p.endswith('>'):
-                        if ch.kind == 'impl' and ch.name == p[1:-1].strip():
+                        if ch.kind == 'impl' and ch.name.replace('memory::', '') == p[1:-1].strip():
                             nxt.append(ch)
                     elif last:
                         if ch.name == p and (kind is None or ch.kind == kind) and ch.kind != 'impl':
